@@ -61,6 +61,89 @@ func prBox() (any, any) {
 		println(i, v)
 	}
 '''),
+    ("C01-small-struct-return-reloaded", '''
+type prSwP struct{ x, y int32 }
+type prSwB struct{ a, b, c byte }
+
+//go:noinline
+func prSwap(p *prSwP, n prSwP) prSwP {
+	old := *p
+	*p = n
+	return old
+}
+
+//go:noinline
+func prSwapB(p *prSwB, n prSwB) prSwB {
+	old := *p
+	*p = n
+	return old
+}
+
+//go:noinline
+func prSwapA(p *[2]int16, n [2]int16) [2]int16 {
+	old := *p
+	*p = n
+	return old
+}
+''', '''
+	cur := prSwP{1, 2}
+	old := prSwap(&cur, prSwP{3, 4})
+	println(old.x, old.y, cur.x, cur.y)
+	b := prSwB{1, 2, 3}
+	ob := prSwapB(&b, prSwB{4, 5, 6})
+	println(ob.a, ob.b, ob.c, b.a)
+	a := [2]int16{1, 2}
+	oa := prSwapA(&a, [2]int16{3, 4})
+	println(oa[0], oa[1], a[0])
+'''),
+    ("C01-struct-eq-no-short-circuit", '''
+type prEqS struct {
+	a int
+	x any
+}
+
+type prEqN struct {
+	k string
+	s prEqS
+	t [2]any
+}
+
+//go:noinline
+func prEq(p, q prEqS) bool { return p == q }
+
+//go:noinline
+func prNeq(p, q prEqS) bool { return p != q }
+
+//go:noinline
+func prEqN_(p, q prEqN) bool { return p == q }
+
+//go:noinline
+func prEqA(p, q [3]any) bool { return p == q }
+
+func prTry(tag string, f func() bool) {
+	defer func() {
+		if r := recover(); r != nil {
+			println(tag, "panic")
+		}
+	}()
+	println(tag, f())
+}
+''', '''
+	sl := []int{1}
+	prTry("diff-first", func() bool { return prEq(prEqS{1, sl}, prEqS{2, sl}) })
+	prTry("neq-diff-first", func() bool { return prNeq(prEqS{1, sl}, prEqS{2, sl}) })
+	prTry("same-first", func() bool { return prEq(prEqS{1, sl}, prEqS{1, sl}) })
+	prTry("ok", func() bool { return prEq(prEqS{1, 5}, prEqS{1, 5}) })
+	prTry("nested-diff-k", func() bool { return prEqN_(prEqN{"a", prEqS{1, sl}, [2]any{sl, sl}}, prEqN{"b", prEqS{1, sl}, [2]any{sl, sl}}) })
+	prTry("nested-diff-a", func() bool { return prEqN_(prEqN{"a", prEqS{1, sl}, [2]any{sl, sl}}, prEqN{"a", prEqS{2, sl}, [2]any{sl, sl}}) })
+	prTry("nested-same", func() bool { return prEqN_(prEqN{"a", prEqS{1, 2}, [2]any{sl, sl}}, prEqN{"a", prEqS{1, 2}, [2]any{sl, sl}}) })
+	prTry("nested-t-diff0", func() bool { return prEqN_(prEqN{"a", prEqS{1, 2}, [2]any{1, sl}}, prEqN{"a", prEqS{1, 2}, [2]any{2, sl}}) })
+	prTry("arr-diff0", func() bool { return prEqA([3]any{1, sl, sl}, [3]any{2, sl, sl}) })
+	prTry("arr-same0", func() bool { return prEqA([3]any{1, sl, 3}, [3]any{1, sl, 3}) })
+	prTry("arr-ok", func() bool { return prEqA([3]any{1, "x", 3.5}, [3]any{1, "x", 3.5}) })
+	var ia, ib any = prEqS{1, sl}, prEqS{2, sl}
+	prTry("iface-diff-first", func() bool { return ia == ib })
+'''),
 ]
 
 
